@@ -407,12 +407,29 @@ def describe():
 FAMILY_ROOTS = (stix2.exceptions.STIXError, ValueError, TypeError)
 
 
+def _table_ids(tbl):
+    if not isinstance(tbl, dict):
+        return None
+    return tuple((k, id(v), type(v).__name__) for k, v in tbl.items())
+
+
 def registry_snapshot():
+    """deep content of the registries: for every (version, category, name) the class object, the keys and
+    Property objects of its _properties and _toplevel_properties tables (in order) and its _type /
+    _id_contributing_properties; a failed construction must leave all of it as it was."""
     snap = []
     for ver in sorted(stix2.registry.STIX2_OBJ_MAPS):
         for cat in sorted(stix2.registry.STIX2_OBJ_MAPS[ver]):
             m = stix2.registry.STIX2_OBJ_MAPS[ver][cat]
-            snap.append((ver, cat, tuple(sorted((k, id(v)) for k, v in m.items()))))
+            rows = []
+            for k in sorted(m, key=repr):
+                v = m[k]
+                d = vars(v) if inspect.isclass(v) else {}
+                rows.append((repr(k), id(v), _table_ids(getattr(v, "_properties", None)),
+                             _table_ids(getattr(v, "_toplevel_properties", None)),
+                             repr(d.get("_type")), repr(getattr(v, "_id_contributing_properties", None)),
+                             tuple(sorted(x for x in d if not x.startswith("__")))))
+            snap.append((ver, cat, tuple(rows)))
     return hash(tuple(snap))
 
 
@@ -599,22 +616,102 @@ def run_case(case):
     return res
 
 
+EXT_A = "extension-definition--11111111-1111-4111-8111-111111111111"
+EXT_B = "extension-definition--22222222-2222-4222-8222-222222222222"
+EXT_C = "extension-definition--33333333-3333-4333-8333-333333333333"
+EXT_D = "extension-definition--44444444-4444-4444-8444-444444444444"
+
+
+def register_custom():
+    """user registrations (decorators of the public API): two toplevel-property-extensions, a
+    property-extension, a custom object defined through a new-sdo extension, a custom observable and a
+    custom marking, for 2.1; a custom object and observable for 2.0."""
+    import stix2.v20
+    import stix2.v21
+
+    @stix2.v21.CustomExtension(EXT_A, [("a_note", P.StringProperty())])
+    class ExtA:
+        extension_type = "toplevel-property-extension"
+
+    @stix2.v21.CustomExtension(EXT_B, [("b_rank", P.IntegerProperty(min=0)), ("b_tags", P.ListProperty(P.StringProperty))])
+    class ExtB:
+        extension_type = "toplevel-property-extension"
+
+    @stix2.v21.CustomExtension(EXT_C, [("c_val", P.StringProperty(required=True))])
+    class ExtC:
+        extension_type = "property-extension"
+
+    @stix2.v21.CustomObject("x-c17-thing", [("size", P.IntegerProperty(required=True))], extension_name=EXT_D)
+    class Thing21:
+        pass
+
+    @stix2.v21.CustomObservable("x-c17-obs", [("val", P.StringProperty(required=True))], ["val"])
+    class Obs21:
+        pass
+
+    @stix2.v21.CustomMarking("x-c17-marking", [("note", P.StringProperty(required=True))])
+    class Mark21:
+        pass
+
+    @stix2.v20.CustomObject("x-c17-thing", [("size", P.IntegerProperty(required=True))])
+    class Thing20:
+        pass
+
+    @stix2.v20.CustomObservable("x-c17-obs", [("val", P.StringProperty(required=True))])
+    class Obs20:
+        pass
+
+
 def main():
     if len(sys.argv) > 1 and sys.argv[1] == "describe":
         print(json.dumps(describe()))
         return
+    isolate = False
+    if len(sys.argv) > 1 and sys.argv[1] == "custom":
+        register_custom()
+        isolate = True      # every case is observed from the same registered state (forked child per case)
     sys.setrecursionlimit(1000)
     for line in sys.stdin:
         line = line.strip()
         if not line:
             continue
         case = json.loads(line)
+        if isolate:
+            print(json.dumps(run_isolated(case)))
+            sys.stdout.flush()
+            continue
         try:
             out = run_case(case)
         except Exception as e:  # noqa: BLE001  (harness failure, not an observation)
             out = {"out": "HarnessError", "msg": "%s: %s" % (type(e).__name__, e)}
         print(json.dumps(out))
         sys.stdout.flush()
+
+
+def run_isolated(case):
+    """run one case in a forked child, so that a registry change made by one case cannot hide the
+    same change in a later one"""
+    import os
+    rfd, wfd = os.pipe()
+    sys.stdout.flush()
+    pid = os.fork()
+    if pid == 0:
+        os.close(rfd)
+        try:
+            out = run_case(case)
+        except BaseException as e:  # noqa: BLE001
+            out = {"out": "HarnessError", "msg": "%s: %s" % (type(e).__name__, e)}
+        with os.fdopen(wfd, "w") as f:
+            f.write(json.dumps(out))
+        os._exit(0)
+    os.close(wfd)
+    with os.fdopen(rfd) as f:
+        text = f.read()
+    os.waitpid(pid, 0)
+    try:
+        return json.loads(text)
+    except ValueError:
+        return {"out": "HarnessError", "msg": "child produced no result"}
 
 
 if __name__ == "__main__":
